@@ -375,4 +375,16 @@ def raceShapeRaw (frm to : PSt) : List (Nat × Nat × Nat × String) → Bool
   | r :: rest =>
     r.1 != F.kMemberWrite && StOp.ofRaw (r.1, r.2.1, r.2.2.1) == StOp.cas frm to && rest.all (quietRaw frm)
 
+/-- `p` occurs in `l` (bytes of a path format). -/
+def hasInfix (p : List Nat) : List Nat → Bool
+  | [] => p.isEmpty
+  | x :: t => p.isPrefixOf (x :: t) || hasInfix p t
+
+/-- `"thread.%d"` -/
+def tidPattern : List Nat := "thread.%d".toList.map Char.toNat
+
+/-- Path-building functions that work at the process level (called from
+    `ovni_proc_init` only) or move an already built thread directory. -/
+def procLevelPathFns : List String := ["mkdir_proc", "create_proc_dir", "move_thdir_to_final"]
+
 end Ovni.Rt.Conc
